@@ -279,3 +279,199 @@ Example C16_nonvacuous_withdraw_capped :
   exists s', step ex_env ex_state (HardWithdraw 5 [(0%nat, 100)] true) = Ok s' [(0%nat, 70)]
              /\ hard_dep s' 5%nat 0%nat = 0.
 Proof. eexists. split; vm_compute; reflexivity. Qed.
+
+(** * Principals that change during the history
+
+    The oracle lists, asset owners, deputies and committee member lists are
+    state; governance changes them between messages ([admin], [hop], [hrun] of
+    Model/Auth.v).  Authorisation is decided by the lists of the state the
+    message arrives in: a principal removed by a change is refused by the next
+    message (and stays refused while only messages follow), an added one is
+    accepted at once. *)
+
+(* the first theorem again, over the states reached by any history of messages
+   and changes of principals *)
+Theorem C16_wrong_signer_rejected_all_histories :
+  forall e hs s o, authorised e (hrun e s hs) o = false -> step e (hrun e s hs) o = Err.
+Proof. exact wrong_signer_rejected_all_histories. Qed.
+Print Assumptions C16_wrong_signer_rejected_all_histories.
+
+(* messages never change who the principals are: only the changes below do *)
+Theorem C16_messages_keep_principals :
+  forall e s o s' out, step e s o = Ok s' out -> same_principals s s'.
+Proof. exact messages_keep_principals. Qed.
+Print Assumptions C16_messages_keep_principals.
+
+(* pricefeed: an oracle removed from the market's list is refused by the next
+   message, whatever it has posted before; an added one is accepted; the other
+   markets keep their lists *)
+Theorem C16_removed_oracle_refused :
+  forall e s m l s' out b p x,
+  admin_step e s (SetOracles m l) = Ok s' out -> ~ In b l -> step e s' (PostPrice b m p x) = Err.
+Proof. exact removed_oracle_refused. Qed.
+Print Assumptions C16_removed_oracle_refused.
+
+Theorem C16_added_oracle_accepted :
+  forall e s m l s' out b p x,
+  admin_step e s (SetOracles m l) = Ok s' out -> oracles_of s m <> None -> In b l -> now e < x ->
+  exists s'', step e s' (PostPrice b m p x) = Ok s'' [].
+Proof. exact added_oracle_accepted. Qed.
+Print Assumptions C16_added_oracle_accepted.
+
+Theorem C16_other_markets_keep_oracles :
+  forall e s m l s' out m',
+  admin_step e s (SetOracles m l) = Ok s' out -> m' <> m -> oracles_of s' m' = oracles_of s m'.
+Proof. exact other_markets_keep_oracles. Qed.
+Print Assumptions C16_other_markets_keep_oracles.
+
+Theorem C16_removed_oracle_refused_all_histories :
+  forall e s hs m l ops b p x,
+  nodup_b l = true -> ~ In b l ->
+  step e (hrun e s (hs ++ Adm (SetOracles m l) :: map Msg ops)) (PostPrice b m p x) = Err.
+Proof. exact removed_oracle_refused_all_histories. Qed.
+Print Assumptions C16_removed_oracle_refused_all_histories.
+
+(* committee: a removed member can neither submit nor vote; the change closes the
+   committee's open proposals with their votes; an added member submits at once;
+   a deleted committee accepts nobody *)
+Theorem C16_removed_member_refused :
+  forall e s c l s' out b,
+  admin_step e s (SetMembers c l) = Ok s' out -> ~ In b l ->
+  (forall dur rest, step e s' (Submit b c dur rest) = Err) /\
+  (forall pid vt dl, proposals s' pid = Some (c, dl) ->
+     (exists x, find_com s' c = Some x /\ cm_member_type x = true) -> step e s' (Vote b pid vt) = Err).
+Proof. exact removed_member_refused. Qed.
+Print Assumptions C16_removed_member_refused.
+
+Theorem C16_member_change_closes_proposals :
+  forall e s c l s' out pid dl,
+  (admin_step e s (SetMembers c l) = Ok s' out \/ admin_step e s (DelCommittee c) = Ok s' out) ->
+  proposals s pid = Some (c, dl) ->
+  proposals s' pid = None /\ (forall a, votes s' pid a = None) /\ forall b vt, step e s' (Vote b pid vt) = Err.
+Proof. exact member_change_closes_proposals. Qed.
+Print Assumptions C16_member_change_closes_proposals.
+
+Theorem C16_added_member_accepted :
+  forall e s c l s' out b dur,
+  admin_step e s (SetMembers c l) = Ok s' out -> In b l ->
+  exists s'', step e s' (Submit b c dur true) = Ok s'' [].
+Proof. exact added_member_accepted. Qed.
+Print Assumptions C16_added_member_accepted.
+
+Theorem C16_deleted_committee_refuses_all :
+  forall e s c s' out b dur rest,
+  admin_step e s (DelCommittee c) = Ok s' out -> step e s' (Submit b c dur rest) = Err.
+Proof. exact deleted_committee_refuses_all. Qed.
+Print Assumptions C16_deleted_committee_refuses_all.
+
+Theorem C16_removed_member_refused_all_histories :
+  forall e s hs c l ops b dur rest,
+  l <> [] -> nodup_b l = true -> ~ In b l ->
+  step e (hrun e s (hs ++ Adm (SetMembers c l) :: map Msg ops)) (Submit b c dur rest) = Err.
+Proof. exact removed_member_refused_all_histories. Qed.
+Print Assumptions C16_removed_member_refused_all_histories.
+
+(* over every history with changes of the member lists: every recorded vote on a
+   member-committee proposal is a yes vote of a member of the CURRENT list *)
+Theorem C16_member_votes_from_current_members_all_histories :
+  forall e hs s pid a vt, VInv e s -> votes (hrun e s hs) pid a = Some vt ->
+  exists c dl x, proposals (hrun e s hs) pid = Some (c, dl) /\ find_com (hrun e s hs) c = Some x /\
+    (cm_member_type x = true -> In a (cm_members x) /\ vt = 1%nat).
+Proof. exact member_votes_from_current_members_all_histories. Qed.
+Print Assumptions C16_member_votes_from_current_members_all_histories.
+
+(* issuance: after a hand-over everybody but the new owner is refused, the new owner is the principal *)
+Theorem C16_former_owner_refused :
+  forall e s d a s' out b,
+  admin_step e s (SetOwner d a) = Ok s' out -> find_asset s d <> None -> b <> a ->
+  (forall amt rcv, step e s' (Issue b d amt rcv) = Err) /\
+  (forall amt, step e s' (Redeem b d amt) = Err) /\
+  (forall c, step e s' (Block b d c) = Err) /\
+  (forall c, step e s' (Unblock b d c) = Err) /\
+  (forall st, step e s' (SetPause b d st) = Err).
+Proof. exact former_owner_refused. Qed.
+Print Assumptions C16_former_owner_refused.
+
+Theorem C16_new_owner_is_principal :
+  forall e s d a s' out,
+  admin_step e s (SetOwner d a) = Ok s' out -> find_asset s d <> None ->
+  forall st, authorised e s' (SetPause a d st) = true /\ exists s'', step e s' (SetPause a d st) = Ok s'' [].
+Proof. exact new_owner_is_principal. Qed.
+Print Assumptions C16_new_owner_is_principal.
+
+Theorem C16_former_owner_refused_all_histories :
+  forall e s hs d a ops b,
+  (forall x, find_asset (hrun e s hs) d = Some x -> mem a (as_blocked x) = false) -> b <> a ->
+  let s3 := hrun e s (hs ++ Adm (SetOwner d a) :: map Msg ops) in
+  (forall amt rcv, step e s3 (Issue b d amt rcv) = Err) /\
+  (forall amt, step e s3 (Redeem b d amt) = Err) /\
+  (forall c, step e s3 (Block b d c) = Err) /\
+  (forall c, step e s3 (Unblock b d c) = Err) /\
+  (forall st, step e s3 (SetPause b d st) = Err).
+Proof. exact former_owner_refused_all_messages_all_histories. Qed.
+Print Assumptions C16_former_owner_refused_all_histories.
+
+(* bep3: after a change of the deputy, a message that neither comes from nor goes
+   to the new deputy is refused; swaps already recorded keep their label *)
+Theorem C16_former_deputy_refused :
+  forall e s d a s' out b rcp amt rest,
+  admin_step e s (SetDeputy d a) = Ok s' out -> b <> a -> rcp <> a ->
+  step e s' (CreateSwap b rcp [(d, amt)] rest) = Err.
+Proof. exact former_deputy_refused. Qed.
+Print Assumptions C16_former_deputy_refused.
+
+Theorem C16_former_deputy_refused_all_histories :
+  forall e s hs d a ops b rcp amt rest,
+  b <> a -> rcp <> a ->
+  step e (hrun e s (hs ++ Adm (SetDeputy d a) :: map Msg ops)) (CreateSwap b rcp [(d, amt)] rest) = Err.
+Proof. exact former_deputy_refused_all_histories. Qed.
+Print Assumptions C16_former_deputy_refused_all_histories.
+
+(* over every history with changes of the deputy: a swap recorded as incoming was
+   sent by the account that was the asset's deputy when the swap was created *)
+Theorem C16_incoming_swaps_from_deputy_of_their_time :
+  forall e hs s w, In w (swaps (hrun e s hs)) ->
+  In w (swaps s) \/
+  exists pre h post, hs = pre ++ h :: post /\
+    (sw_incoming w = true ->
+     exists x, find_b3 (hrun e s pre) (sw_denom w) = Some x /\ sw_sender w = b3_deputy x).
+Proof. exact incoming_swaps_from_deputy_of_their_time. Qed.
+Print Assumptions C16_incoming_swaps_from_deputy_of_their_time.
+
+(** Non-vacuity of the statements about changing principals. *)
+
+Example C16_nonvacuous_VInv : VInv ex_env ex_state.
+Proof. exact (Inv_VInv _ _ C16_nonvacuous_Inv). Qed.
+
+(* oracle 1 posts, is removed from market 0 (oracle 2 joins), and is refused
+   although its raw price is still stored; oracle 0 (kept) and oracle 2 (new) post *)
+Example C16_nonvacuous_oracle_rotation :
+  let s := hrun ex_env ex_state [Msg (PostPrice 1 0 5 1001); Adm (SetOracles 0 [0%nat; 2%nat])] in
+  prices s 0%nat 1%nat = Some (5, 1001) /\
+  map (fun b => class_of (step ex_env s (PostPrice b 0 7 1002))) [0%nat; 1%nat; 2%nat; 3%nat] = [ROk; RErr; ROk; RErr].
+Proof. vm_compute. split; reflexivity. Qed.
+
+(* member 4 submits and votes, the list becomes [5; 0]: the open proposals of the
+   committee are closed, 4 is refused, 0 (new) and 5 (kept) submit *)
+Example C16_nonvacuous_member_rotation :
+  let s := hrun ex_env ex_state [Msg (Submit 4 1 100 true); Msg (Vote 4 2 1); Adm (SetMembers 1 [5%nat; 0%nat])] in
+  proposals s 1%nat = None /\ proposals s 2%nat = None /\ votes s 2%nat 4%nat = None /\
+  map (fun b => class_of (step ex_env s (Submit b 1 100 true))) [0%nat; 4%nat; 5%nat] = [ROk; RErr; ROk] /\
+  vinv_b ex_env s = true.
+Proof. vm_compute. repeat split; reflexivity. Qed.
+
+(* a duplicated oracle / an empty member list / a blocked owner is refused and changes nothing *)
+Example C16_nonvacuous_refused_changes :
+  class_of (admin_step ex_env ex_state (SetOracles 0 [1%nat; 1%nat])) = RErr /\
+  class_of (admin_step ex_env ex_state (SetMembers 1 [])) = RErr /\
+  (exists s1 o, step ex_env ex_state (Block 2 0 5) = Ok s1 o /\ class_of (admin_step ex_env s1 (SetOwner 0 5)) = RErr).
+Proof. vm_compute. repeat split; try reflexivity. eexists. eexists. split; reflexivity. Qed.
+
+(* owner and deputy hand-over; a deleted committee; the swap of the former deputy keeps its label *)
+Example C16_nonvacuous_owner_deputy :
+  let s := hrun ex_env ex_state [Msg (CreateSwap 3 5 [(0%nat, 10)] true); Adm (SetOwner 0 1); Adm (SetDeputy 0 4); Adm (DelCommittee 1)] in
+  map (fun b => class_of (step ex_env s (SetPause b 0 true))) [1%nat; 2%nat] = [ROk; RErr] /\
+  map (fun b => class_of (step ex_env s (CreateSwap b 5 [(0%nat, 10)] true))) [3%nat; 4%nat] = [RErr; ROk] /\
+  swaps s = [mkSwap 3 5 0 10 true] /\
+  class_of (step ex_env s (Submit 4 1 100 true)) = RErr.
+Proof. vm_compute. repeat split; reflexivity. Qed.
